@@ -651,6 +651,10 @@ class TreeGen:
         odd = st.fixed_dictionaries({"c": st.just("Odd"), "o": self.origin(),
                                      "k": st.fixed_dictionaries({"self": opt, "node": opt, "arg": opt, "args": items, "o": opt, "i": opt})})
         opts += [odd, odd.map(dict)]
+        la = st.one_of(self.leaf_of("LeafA"), self.leaf_of("SubLeafA"))
+        ntbox = st.fixed_dictionaries({"c": st.just("NtBox"), "o": self.origin(),
+                                       "k": st.fixed_dictionaries({"kids": st.lists(la, max_size=3), "one": st.one_of(st.none(), la)})})
+        opts += [ntbox, ntbox.map(dict)]
         if self.noinit:
             ni = st.fixed_dictionaries({"c": st.just("NoInit"), "o": self.origin(),
                                         "k": st.fixed_dictionaries({"kid": opt, "last": opt})})
